@@ -215,6 +215,10 @@ func (db *DB) collectGarbage() (collectedCount uint64, done bool, err error) {
 				continue
 			}
 			if errors.Is(err, storage.ErrNotFound) {
+				// the file itself is already gone (e.g. deleted while chunks it
+				// shared with another file were kept): nothing to delete, but its
+				// stale gc entry must leave the index or it can never be collected
+				recycledItems = append(recycledItems, item)
 				continue
 			}
 
